@@ -50,17 +50,22 @@ Terminated(r) == \A i \in DOMAIN r.runs : r.runs[i].outcome = "completed"
 NoPanic(r) == ~StartsAt(r.pres, 1, "panic")
 SameSeq(a, b) == Len(a) = Len(b) /\ \A i \in 1..Len(a) : a[i] = b[i]
 
+\* placements whose here-document is not in the tree of the script itself (it is inside
+\* a command substitution / an alias value / the operand of eval)
+NoTree == {"subst", "alias", "eval"}
+
 Verdict(r) ==
   LET h == [place |-> r.sc.place, shape |-> r.sc.shape, ops |-> r.sc.ops]
       e == Expect(h, r.sc.lines, r.sc.nl)
   IN IF ~SameSeq(e.script, r.script) THEN [v |-> "render", class |-> e.class, why |-> "script"]
      ELSE IF ~(Terminated(r) /\ NoPanic(r)) THEN [v |-> "reject", class |-> e.class, why |-> "outcome"]
      ELSE IF e.class # "ok" THEN [v |-> "open", class |-> e.class, why |-> ""]
-     ELSE IF r.pres # "ok" THEN [v |-> "reject", class |-> e.class, why |-> "syntax-error"]
+     \* (the harness parses without the alias: its verdict on an alias scenario means nothing)
+     ELSE IF r.pres # "ok" /\ r.sc.place # "alias" THEN [v |-> "reject", class |-> e.class, why |-> "syntax-error"]
      ELSE IF \E i \in DOMAIN r.runs : ~MatchG(r.runs[i].ev, e.groups) THEN [v |-> "reject", class |-> e.class, why |-> "events"]
      ELSE IF \E i \in DOMAIN r.runs : r.runs[i].out # e.out THEN [v |-> "reject", class |-> e.class, why |-> "stdout"]
-     ELSE IF r.sc.place # "subst" /\ ~SameSeq(r.docs, e.docs) THEN [v |-> "reject", class |-> e.class, why |-> "docs"]
-     ELSE IF r.sc.place # "subst" /\ ~SameSeq(r.printed, e.printed) THEN [v |-> "reject", class |-> e.class, why |-> "printed"]
+     ELSE IF r.sc.place \notin NoTree /\ ~SameSeq(r.docs, e.docs) THEN [v |-> "reject", class |-> e.class, why |-> "docs"]
+     ELSE IF r.sc.place \notin NoTree /\ ~SameSeq(r.printed, e.printed) THEN [v |-> "reject", class |-> e.class, why |-> "printed"]
      ELSE [v |-> "ok", class |-> "ok", why |-> ""]
 
 Judge ==
